@@ -16,7 +16,7 @@ from . import mcmc
 from ..report import AnalysisError
 from ..term import Resolver, pmatch, abstract
 
-FLOORS = {"slice-form": 9, "no-squeeze": 9, "parallel-arrays": 1, "interval-cut": 1,
+FLOORS = {"columns-commit-together": 4, "slice-form": 9, "no-squeeze": 9, "parallel-arrays": 1, "interval-cut": 1,
           "none-value": 1, "marginal-passthrough": 1}
 GETTER_CLASSES = ("MetropolisChain", "HamiltonianChain", "EnsembleSampler")
 GETTERS = ("get_parameter", "get_probabilities", "get_sample")
@@ -44,6 +44,10 @@ def run(prog, tier):
 
     c, gi = prog.method("MarkovChain", "get_interval")
     obs.extend(_parallel(prog, c, gi))
+
+    # the columns the read-outs pair up row by row grow together: nothing that runs user code sits between the stores of one step
+    for cname in ("MetropolisChain", "GibbsChain", "PcaChain", "HamiltonianChain"):
+        obs.append(_commit_together(prog, cname, 3 if tier == "thorough" else 2))
 
     # none-value lint over the mcmc package
     hits = []
@@ -92,6 +96,52 @@ def run(prog, tier):
         "info": info,
     }
     return obs, FLOORS, meta
+
+
+def _commit_together(prog, cname, unroll):
+    """One step writes one row: a value per parameter column, a log-probability, the length counter.  If user code (the
+    posterior or its gradient - the only calls that may raise or be interrupted for reasons of their own) runs between the
+    first and the last of these stores, an exception leaves some columns one entry longer than others for good: every later
+    read-out pairs values of different steps.  So on every path all user calls precede the first store."""
+    from ..flow import Enumerator, RETURN
+    ci = prog.cls(cname)
+    (c, fn), = mcmc.step_functions(prog, cname)
+    st = mcmc.derive_stores(prog, cname)
+    cols = {f"self.{st.P}"} | ({f"self.{st.S}"} if st.kind == "attr" else set())
+
+    def classify(node):
+        ev = []
+        for n in ast.walk(node):
+            if isinstance(n, ast.Call) and isinstance(n.func, ast.Attribute):
+                if n.func.attr in ("append", "extend") and U(n.func.value) in cols:
+                    ev.append(("STORE", n.lineno, U(n.func.value)))
+                elif n.func.attr == "add_sample":
+                    ev.append(("STORE", n.lineno, U(n.func.value) + ".samples"))
+                elif U(n.func) in ("self.posterior", "self.grad", "self.gradient", "self.posterior_gradient"):
+                    ev.append(("USER", n.lineno, U(n.func)))
+        if isinstance(node, ast.AugAssign) and U(node.target) == "self.chain_length":
+            ev.append(("STORE", node.lineno, "self.chain_length"))
+        return sorted(ev, key=lambda e: e[1])
+    en = Enumerator(classify, None, mcmc.self_inliner(prog, ci), unroll=unroll, depth=2)
+    paths = en.function(fn)
+    bad = None
+    n_user = n_store = 0
+    for ev, status in paths:
+        idx = [i for i, e in enumerate(ev) if e[0] == "STORE"]
+        n_store = max(n_store, len(idx))
+        n_user = max(n_user, sum(1 for e in ev if e[0] == "USER"))
+        if idx:
+            mid = [e for e in ev[idx[0]:idx[-1]] if e[0] == "USER"]
+            if mid and bad is None:
+                bad = (ev[idx[0]], mid[0], ev[idx[-1]])
+    if n_store < 2 or n_user < 1:
+        raise AnalysisError(f"anchor vanished: stores / posterior calls of {cname}'s step function ({n_store} stores, {n_user} user calls)")
+    msg = ""
+    if bad:
+        msg = (f"`{bad[1][2]}` (line {bad[1][1]}) runs after the store into {bad[0][2]} (line {bad[0][1]}) and before the store into "
+               f"{bad[2][2]} (line {bad[2][1]}): if it raises, the step is half recorded and the columns stay misaligned")
+    return struct_ob("columns-commit-together", qual(c, fn) + (f"[{cname}]" if c.name != cname else ""), bad is None, msg,
+                     c.module.relpath, fn.lineno, slots={"paths": len(paths), "stores_on_path": n_store, "user_calls_on_path": n_user})
 
 
 def _slice_form(c, fn, st, gname):
